@@ -45,12 +45,12 @@ theorem deqTail_run0 (fuel : Nat) (env : Env) (hk tk k q nd : Nat) (b mbv : Int)
     (hh : env.vars "head" = some (.ptr (.obj hk))) (htl : env.vars "tail" = some (.ptr (.obj tk)))
     (hnode : env.vars "node" = some (.ptr (.obj k))) (hst : env.vars "state" = some (.int 0))
     (hbl : env.vars "blocking" = some (.int b))
-    (hq : L.addr hk = some q) (ht : L.tailOf tk = some q) (hk' : L.addr k = some nd) (hne : nd ≠ q)
+    (hq : L.addr hk = some q) (ht : L.tailOf tk = some q) (hk' : L.addr k = some nd)
     (hcfg : env.priv (.glob "CONFIG_RCU_EMIT_LEGACY_MB") = some (.int mbv))
     (hwt : ∀ v ∈ inp, Typed L v) :
     ∃ out, exec fuel deqTail env inp = .ok out ∧
-      ∃ p', lrun (.d2 q nd (decide (b ≠ 0))) (out.events.filterMap (absEv L)) = some p' ∧
-        DeqEnd k q nd (decide (b ≠ 0)) b (.int 0) out p' := by
+      (nd ≠ q → ∃ p', lrun (.d2 q nd (decide (b ≠ 0))) (out.events.filterMap (absEv L)) = some p' ∧
+        DeqEnd k q nd (decide (b ≠ 0)) b (.int 0) out p') := by
   generalize hbb : decide (b ≠ 0) = bb
   have hd0 : dec L (.int 0) = some 0 := by simp [dec]
   have hdk : dec L (.ptr (.obj k)) = some nd := by simp [dec, hk']
@@ -82,11 +82,12 @@ theorem deqTail_run0 (fuel : Nat) (env : Env) (hk tk k q nd : Nat) (b mbv : Int)
           rcases hres with ⟨hc, hr⟩ | ⟨hc, hb, hr⟩ | ⟨v, hc, hv0, hmem, hld, hr⟩
           · have hr' := hr (.deq bb) q nd hk' hkb
             rcases hc with hc | hc <;> simp only [hc] <;>
-              exact ⟨_, rfl, _, by simp only [List.cons_append, List.nil_append]; rw [hpre, hr'],
-                Or.inl ⟨by simp, Or.inr (Or.inr rfl)⟩⟩
+              exact ⟨_, rfl, fun hne => ⟨_, by simp only [List.cons_append, List.nil_append]; rw [hpre, hr'],
+                Or.inl ⟨by simp, Or.inr (Or.inr rfl)⟩⟩⟩
           · have hr' := hr (.deq bb) q nd hk' hkb
             subst hb
             deq_exec
+            intro hne
             rw [lrun_append, hr']
             simp [syncWbPc, hne, absEv, decNext, decTail, List.filterMap_cons, lrun, lstep, *]
           · obtain ⟨x, hx⟩ := hwt v (by simp [hmem])
@@ -95,6 +96,7 @@ theorem deqTail_run0 (fuel : Nat) (env : Env) (hk tk k q nd : Nat) (b mbv : Int)
             have hvm : v ≠ .int (-1) := by rintro rfl; simp [dec] at hx
             by_cases hmb : mbv = 0 <;>
             · deq_exec
+              intro hne
               rw [lrun_append, hr']
               simp [syncGotPc, hne, absEv, decNext, decTail, List.filterMap_cons, lrun, lstep, *]
     · have hx10 : x1 ≠ 0 := fun e => hv1 (dec_eq_zero L (e ▸ hx1))
@@ -105,12 +107,12 @@ theorem deqTail_run1 (fuel : Nat) (env : Env) (hk tk k q nd : Nat) (b mbv : Int)
     (hs1 : sl ≠ .glob "&attempt") (hs2 : sl ≠ .field (.obj hk) "next") (hs3 : env.priv sl = some (.int 0))
     (hs4 : sl ≠ .glob "CONFIG_RCU_EMIT_LEGACY_MB")
     (hbl : env.vars "blocking" = some (.int b))
-    (hq : L.addr hk = some q) (ht : L.tailOf tk = some q) (hk' : L.addr k = some nd) (hne : nd ≠ q)
+    (hq : L.addr hk = some q) (ht : L.tailOf tk = some q) (hk' : L.addr k = some nd)
     (hcfg : env.priv (.glob "CONFIG_RCU_EMIT_LEGACY_MB") = some (.int mbv))
     (hwt : ∀ v ∈ inp, Typed L v) :
     ∃ out, exec fuel deqTail env inp = .ok out ∧
-      ∃ p', lrun (.d2 q nd (decide (b ≠ 0))) (out.events.filterMap (absEv L)) = some p' ∧
-        DeqEnd k q nd (decide (b ≠ 0)) b (.ptr sl) out p' := by
+      (nd ≠ q → ∃ p', lrun (.d2 q nd (decide (b ≠ 0))) (out.events.filterMap (absEv L)) = some p' ∧
+        DeqEnd k q nd (decide (b ≠ 0)) b (.ptr sl) out p') := by
   generalize hbb : decide (b ≠ 0) = bb
   have hs4' := hs4.symm
   have hs2' := hs2.symm
@@ -145,11 +147,12 @@ theorem deqTail_run1 (fuel : Nat) (env : Env) (hk tk k q nd : Nat) (b mbv : Int)
           rcases hres with ⟨hc, hr⟩ | ⟨hc, hb, hr⟩ | ⟨v, hc, hv0, hmem, hld, hr⟩
           · have hr' := hr (.deq bb) q nd hk' hkb
             rcases hc with hc | hc <;> simp only [hc] <;>
-              exact ⟨_, rfl, _, by simp only [List.cons_append, List.nil_append]; rw [hpre, hr'],
-                Or.inl ⟨by simp, Or.inr (Or.inr rfl)⟩⟩
+              exact ⟨_, rfl, fun hne => ⟨_, by simp only [List.cons_append, List.nil_append]; rw [hpre, hr'],
+                Or.inl ⟨by simp, Or.inr (Or.inr rfl)⟩⟩⟩
           · have hr' := hr (.deq bb) q nd hk' hkb
             subst hb
             deq_exec
+            intro hne
             rw [lrun_append, hr']
             simp [syncWbPc, hne, absEv, decNext, decTail, List.filterMap_cons, lrun, lstep, *]
           · obtain ⟨x, hx⟩ := hwt v (by simp [hmem])
@@ -158,8 +161,413 @@ theorem deqTail_run1 (fuel : Nat) (env : Env) (hk tk k q nd : Nat) (b mbv : Int)
             have hvm : v ≠ .int (-1) := by rintro rfl; simp [dec] at hx
             by_cases hmb : mbv = 0 <;>
             · deq_exec
+              intro hne
               rw [lrun_append, hr']
               simp [syncGotPc, hne, absEv, decNext, decTail, List.filterMap_cons, lrun, lstep, *]
     · have hx10 : x1 ≠ 0 := fun e => hv1 (dec_eq_zero L (e ▸ hx1))
       by_cases hmb : mbv = 0 <;> deq_simp
+/-- pcs at which a dequeue on queue `q` can be cut (oracle or loop budget exhausted) -/
+def DeqMid (q : Nat) (bb : Bool) (p : Pc) : Prop :=
+  p = .e1 (.deq bb) q ∨ p = .e2 (.deq bb) q ∨ p = .sync (.deq bb) q q ∨
+    ∃ nd, p = .d2 q nd bb ∨ p = .d4 q nd bb ∨ p = .sync (.deq bb) q nd
+
+/-- how `___cds_wfcq_dequeue_with_state` ends, against L2's result -/
+def DeqRes (q : Nat) (bb : Bool) (b : Int) (sv : Val) (out : Out) (p' : Pc) : Prop :=
+  ((out.ctl = .blocked ∨ out.ctl = .fuel) ∧ DeqMid q bb p') ∨
+  (out.ctl = .ret (some (.int 0)) ∧ p' = .done .null) ∨
+  (out.ctl = .ret (some (.int (-1))) ∧ b = 0 ∧ p' = .done .wouldblock) ∨
+  (∃ k nd, ∃ last : Bool, out.ctl = .ret (some (.ptr (.obj k))) ∧ L.addr k = some nd ∧ p' = .done (.node nd last) ∧
+    ∀ sl, sv = .ptr sl → out.env.priv sl = some (.int (if last then 1 else 0)))
+
+/-- the part of the generated function after the `_cds_wfcq_empty` test -/
+def deqMid : Stmt :=
+  match Gen.Src.«___cds_wfcq_dequeue_with_state» with
+  | .seq _ (.seq _ (.seq _ (.seq _ t))) => t
+  | _ => .skip
+
+theorem DeqEnd.toRes {k q nd : Nat} {bb : Bool} {b : Int} {sv : Val} {out : Out} {p' : Pc} (hk : L.addr k = some nd)
+    (h : DeqEnd k q nd bb b sv out p') : DeqRes L q bb b sv out p' := by
+  rcases h with ⟨hc, hp⟩ | ⟨hc, hb, hp⟩ | ⟨last, hc, hp, hs⟩
+  · exact Or.inl ⟨hc, Or.inr (Or.inr (Or.inr ⟨nd, hp⟩))⟩
+  · exact Or.inr (Or.inr (Or.inl ⟨hc, hb, hp⟩))
+  · exact Or.inr (Or.inr (Or.inr ⟨k, nd, last, hc, hk, hp, hs⟩))
+
+theorem deqMid_run0 {fuel : Nat} {env : Env} {inp : List Val} {r : Except String Out}
+    (hE0 : exec fuel deqMid env inp = r) (hk tk q : Nat) (b mbv : Int)
+    (hh : env.vars "head" = some (.ptr (.obj hk))) (htl : env.vars "tail" = some (.ptr (.obj tk)))
+    (hst : env.vars "state" = some (.int 0))
+    (hbl : env.vars "blocking" = some (.int b))
+    (hq : L.addr hk = some q) (ht : L.tailOf tk = some q)
+    (hcfg : env.priv (.glob "CONFIG_RCU_EMIT_LEGACY_MB") = some (.int mbv))
+    (hwt : ∀ v ∈ inp, Typed L v) :
+    ∃ out, r = .ok out ∧
+      ((∀ v mo, Event.ld (.field (.obj hk) "next") v mo ∈ out.events → v ≠ .ptr (.obj hk)) →
+        ∃ p', lrun (.sync (.deq (decide (b ≠ 0))) q q) (out.events.filterMap (absEv L)) = some p' ∧
+          DeqRes L q (decide (b ≠ 0)) b (.int 0) out p') := by
+  subst hE0
+  generalize hbb : decide (b ≠ 0) = bb
+  have hkb : (K.deq bb).blocking = decide (b ≠ 0) := hbb.symm
+  rw [show deqMid = Stmt.seq _ (.seq _ (.seq _ deqTail)) from rfl]
+  simp [exec, eval, evalArgs, bindParams, asLoc, bind, Except.bind, Env.setVar, Env.setPriv, setDst, Val.truthy,
+      evalBin, evalUn, boolV, hh, htl, hst, hbl]
+  generalize hE : exec fuel Gen.Src.«___cds_wfcq_node_sync_next» _ _ = r
+  obtain ⟨o1, rfl, hsub, hpriv, hres⟩ := sync_next_run L hE hk b (by simp) (by simp)
+  have hcfg1 : o1.env.priv (.glob "CONFIG_RCU_EMIT_LEGACY_MB") = some (.int mbv) := by
+    rw [hpriv _ (by simp)]; simp [hcfg]
+  rcases hres with ⟨hc, hr⟩ | ⟨hc, hb, hr⟩ | ⟨v, hc, hv0, hmem, hld, hr⟩
+  · have hr' := hr (.deq bb) q q hq hkb
+    rcases hc with hc | hc <;> simp only [hc] <;>
+      exact ⟨_, rfl, fun _ => ⟨_, hr', Or.inl ⟨by simp, Or.inr (Or.inr (Or.inl rfl))⟩⟩⟩
+  · have hr' := hr (.deq bb) q q hq hkb
+    subst hb
+    simp [hc, hbl]
+    intro _
+    exact ⟨_, hr', by simp [syncWbPc, DeqRes]⟩
+  · obtain ⟨x, hx⟩ := hwt v hmem
+    have hx0 : x ≠ 0 := fun e => hv0 (dec_eq_zero L (e ▸ hx))
+    obtain ⟨k, rfl, hk'⟩ := dec_obj L hx hx0
+    have hr' := hr x hx (.deq bb) q q hq hkb
+    simp [hc, hbl]
+    obtain ⟨o3, hE3, himp⟩ := deqTail_run0 L fuel
+      { vars := fun y => if y = "node" then some (Val.ptr (Loc.obj k))
+          else if y = "_t3" then some (Val.ptr (Loc.obj k)) else env.vars y,
+        priv := o1.env.priv } hk tk k q x b mbv o1.inp (by simp [hh]) (by simp [htl]) (by simp) (by simp [hst])
+      (by simp [hbl]) hq ht hk' hcfg1 (fun w hw => hwt w (hsub w hw))
+    rw [hE3]
+    refine ⟨_, rfl, fun hside => ?_⟩
+    have hne : x ≠ q := by
+      intro e
+      have : k = hk := L.addr_inj _ _ _ hk' (e ▸ hq)
+      subst this
+      exact hside _ 1 (by simp [hld]) rfl
+    obtain ⟨p', hrun, hend⟩ := himp hne
+    refine ⟨p', ?_, ?_⟩
+    · simp only [List.filterMap_append, lrun_append, hr', syncGotPc, if_true, Option.bind, hbb] at hrun ⊢
+      exact hrun
+    · rw [hbb] at hend
+      exact (hend.toRes L hk')
+
+theorem dequeue_run0 (fuel : Nat) (env : Env) (hk tk q : Nat) (b mbv : Int) (inp : List Val)
+    (h1 : env.vars "u_head" = some (.ptr (.obj hk))) (h2 : env.vars "tail" = some (.ptr (.obj tk)))
+    (h3 : env.vars "state" = some (.int 0)) (h4 : env.vars "blocking" = some (.int b))
+    (hq : L.addr hk = some q) (ht : L.tailOf tk = some q)
+    (hcfg : env.priv (.glob "CONFIG_RCU_EMIT_LEGACY_MB") = some (.int mbv))
+    (hwt : ∀ v ∈ inp, Typed L v) :
+    ∃ out, exec fuel Gen.Src.«___cds_wfcq_dequeue_with_state» env inp = .ok out ∧
+      ((∀ v mo, Event.ld (.field (.obj hk) "next") v mo ∈ out.events → v ≠ .ptr (.obj hk)) →
+        ∃ p', lrun (.e1 (.deq (decide (b ≠ 0))) q) (out.events.filterMap (absEv L)) = some p' ∧
+          DeqRes L q (decide (b ≠ 0)) b (.int 0) out p') := by
+  generalize hbb : decide (b ≠ 0) = bb
+  have hdh : dec L (.ptr (.obj hk)) = some q := by simp [dec, hq]
+  rw [show Gen.Src.«___cds_wfcq_dequeue_with_state» = Stmt.seq _ (.seq _ (.seq _ (.seq _ deqMid))) from rfl]
+  simp [block, exec, eval, evalArgs, bindParams, asLoc, bind, Except.bind, Env.setVar, Env.setPriv, setDst, Val.truthy,
+      evalBin, evalUn, boolV, h1, h2, h3, h4]
+  generalize hE : exec fuel Gen.Src.«_cds_wfcq_empty» _ _ = r
+  obtain ⟨vars, rfl⟩ := empty_exec hE hk tk (by simp) (by simp)
+  clear hE
+  rcases inp with _ | ⟨v1, rest⟩
+  · simp [emptySpec, lrun, DeqRes, DeqMid]
+  · obtain ⟨x1, hx1⟩ := hwt v1 (by simp)
+    by_cases hv1 : v1 = .int 0
+    · subst hv1
+      rcases rest with _ | ⟨v2, rest'⟩
+      · simp [emptySpec, lrun, lstep, DeqRes, DeqMid, absEv, decNext, decTail, dec, hq, List.filterMap_cons]
+      · obtain ⟨x2, hx2⟩ := hwt v2 (by simp)
+        by_cases hv2 : v2 = .ptr (.obj hk)
+        · subst hv2
+          simp [emptySpec, lrun, lstep, DeqRes, DeqMid, absEv, decNext, decTail, dec, hq, ht, List.filterMap_cons, emptyRes]
+        · have hx2q : x2 ≠ q := fun e => hv2 (dec_inj L (e ▸ hx2) hdh)
+          simp [emptySpec, hv2]
+          generalize hEo : exec fuel deqMid _ _ = r
+          obtain ⟨o, rfl, himp⟩ := deqMid_run0 L hEo hk tk q b mbv (by simp) (by simp [h2]) (by simp [h3]) (by simp [h4])
+            hq ht hcfg (fun w hw => hwt w (by simp [hw]))
+          simp only []
+          refine ⟨_, rfl, fun hside => ?_⟩
+          obtain ⟨p', hrun, hres⟩ := himp (fun v mo hm => hside v mo (by simp [hm]))
+          rw [hbb] at hrun hres
+          refine ⟨p', ?_, hres⟩
+          have hd0 : dec L (.int 0) = some 0 := by simp [dec]
+          simp [absEv, decNext, decTail, hd0, hq, ht, hx2, List.filterMap_cons, lrun, lstep, hx2q, nonEmptyPc, hrun]
+    · have hx10 : x1 ≠ 0 := fun e => hv1 (dec_eq_zero L (e ▸ hx1))
+      simp [emptySpec, hv1]
+      generalize hEo : exec fuel deqMid _ _ = r
+      obtain ⟨o, rfl, himp⟩ := deqMid_run0 L hEo hk tk q b mbv (by simp) (by simp [h2]) (by simp [h3]) (by simp [h4])
+        hq ht hcfg (fun w hw => hwt w (by simp [hw]))
+      simp only []
+      refine ⟨_, rfl, fun hside => ?_⟩
+      obtain ⟨p', hrun, hres⟩ := himp (fun v mo hm => hside v mo (by simp [hm]))
+      rw [hbb] at hrun hres
+      refine ⟨p', ?_, hres⟩
+      simp [absEv, decNext, decTail, hq, ht, hx1, List.filterMap_cons, lrun, lstep, hx10, nonEmptyPc, hrun]
+theorem deqMid_run1 {fuel : Nat} {env : Env} {inp : List Val} {r : Except String Out}
+    (hE0 : exec fuel deqMid env inp = r) (hk tk q : Nat) (b mbv : Int)
+    (hh : env.vars "head" = some (.ptr (.obj hk))) (htl : env.vars "tail" = some (.ptr (.obj tk)))
+    (sl : Loc) (hst : env.vars "state" = some (.ptr sl))
+    (hs1 : sl ≠ .glob "&attempt") (hs2 : sl ≠ .field (.obj hk) "next") (hs3 : env.priv sl = some (.int 0))
+    (hs4 : sl ≠ .glob "CONFIG_RCU_EMIT_LEGACY_MB")
+    (hbl : env.vars "blocking" = some (.int b))
+    (hq : L.addr hk = some q) (ht : L.tailOf tk = some q)
+    (hcfg : env.priv (.glob "CONFIG_RCU_EMIT_LEGACY_MB") = some (.int mbv))
+    (hwt : ∀ v ∈ inp, Typed L v) :
+    ∃ out, r = .ok out ∧
+      ((∀ v mo, Event.ld (.field (.obj hk) "next") v mo ∈ out.events → v ≠ .ptr (.obj hk)) →
+        ∃ p', lrun (.sync (.deq (decide (b ≠ 0))) q q) (out.events.filterMap (absEv L)) = some p' ∧
+          DeqRes L q (decide (b ≠ 0)) b (.ptr sl) out p') := by
+  subst hE0
+  generalize hbb : decide (b ≠ 0) = bb
+  have hkb : (K.deq bb).blocking = decide (b ≠ 0) := hbb.symm
+  rw [show deqMid = Stmt.seq _ (.seq _ (.seq _ deqTail)) from rfl]
+  simp [exec, eval, evalArgs, bindParams, asLoc, bind, Except.bind, Env.setVar, Env.setPriv, setDst, Val.truthy,
+      evalBin, evalUn, boolV, hh, htl, hst, hbl]
+  generalize hE : exec fuel Gen.Src.«___cds_wfcq_node_sync_next» _ _ = r
+  obtain ⟨o1, rfl, hsub, hpriv, hres⟩ := sync_next_run L hE hk b (by simp) (by simp)
+  have hcfg1 : o1.env.priv (.glob "CONFIG_RCU_EMIT_LEGACY_MB") = some (.int mbv) := by
+    rw [hpriv _ (by simp)]; simp [hcfg]
+  rcases hres with ⟨hc, hr⟩ | ⟨hc, hb, hr⟩ | ⟨v, hc, hv0, hmem, hld, hr⟩
+  · have hr' := hr (.deq bb) q q hq hkb
+    rcases hc with hc | hc <;> simp only [hc] <;>
+      exact ⟨_, rfl, fun _ => ⟨_, hr', Or.inl ⟨by simp, Or.inr (Or.inr (Or.inl rfl))⟩⟩⟩
+  · have hr' := hr (.deq bb) q q hq hkb
+    subst hb
+    simp [hc, hbl]
+    intro _
+    exact ⟨_, hr', by simp [syncWbPc, DeqRes]⟩
+  · obtain ⟨x, hx⟩ := hwt v hmem
+    have hx0 : x ≠ 0 := fun e => hv0 (dec_eq_zero L (e ▸ hx))
+    obtain ⟨k, rfl, hk'⟩ := dec_obj L hx hx0
+    have hr' := hr x hx (.deq bb) q q hq hkb
+    simp [hc, hbl]
+    obtain ⟨o3, hE3, himp⟩ := deqTail_run1 L fuel
+      { vars := fun y => if y = "node" then some (Val.ptr (Loc.obj k))
+          else if y = "_t3" then some (Val.ptr (Loc.obj k)) else env.vars y,
+        priv := o1.env.priv } hk tk k q x b mbv o1.inp (by simp [hh]) (by simp [htl]) (by simp) sl (by simp [hst])
+      hs1 hs2 (by rw [hpriv _ hs1]; simpa using hs3) hs4 (by simp [hbl]) hq ht hk' hcfg1 (fun w hw => hwt w (hsub w hw))
+    rw [hE3]
+    refine ⟨_, rfl, fun hside => ?_⟩
+    have hne : x ≠ q := by
+      intro e
+      have : k = hk := L.addr_inj _ _ _ hk' (e ▸ hq)
+      subst this
+      exact hside _ 1 (by simp [hld]) rfl
+    obtain ⟨p', hrun, hend⟩ := himp hne
+    refine ⟨p', ?_, ?_⟩
+    · simp only [List.filterMap_append, lrun_append, hr', syncGotPc, if_true, Option.bind, hbb] at hrun ⊢
+      exact hrun
+    · rw [hbb] at hend
+      exact (hend.toRes L hk')
+
+theorem dequeue_run1 (fuel : Nat) (env : Env) (hk tk q : Nat) (b mbv : Int) (inp : List Val)
+    (h1 : env.vars "u_head" = some (.ptr (.obj hk))) (h2 : env.vars "tail" = some (.ptr (.obj tk)))
+    (sl : Loc) (h3 : env.vars "state" = some (.ptr sl))
+    (hs1 : sl ≠ .glob "&attempt") (hs2 : sl ≠ .field (.obj hk) "next") (hs4 : sl ≠ .glob "CONFIG_RCU_EMIT_LEGACY_MB") (h4 : env.vars "blocking" = some (.int b))
+    (hq : L.addr hk = some q) (ht : L.tailOf tk = some q)
+    (hcfg : env.priv (.glob "CONFIG_RCU_EMIT_LEGACY_MB") = some (.int mbv))
+    (hwt : ∀ v ∈ inp, Typed L v) :
+    ∃ out, exec fuel Gen.Src.«___cds_wfcq_dequeue_with_state» env inp = .ok out ∧
+      ((∀ v mo, Event.ld (.field (.obj hk) "next") v mo ∈ out.events → v ≠ .ptr (.obj hk)) →
+        ∃ p', lrun (.e1 (.deq (decide (b ≠ 0))) q) (out.events.filterMap (absEv L)) = some p' ∧
+          DeqRes L q (decide (b ≠ 0)) b (.ptr sl) out p') := by
+  generalize hbb : decide (b ≠ 0) = bb
+  have hdh : dec L (.ptr (.obj hk)) = some q := by simp [dec, hq]
+  rw [show Gen.Src.«___cds_wfcq_dequeue_with_state» = Stmt.seq _ (.seq _ (.seq _ (.seq _ deqMid))) from rfl]
+  simp [block, exec, eval, evalArgs, bindParams, asLoc, bind, Except.bind, Env.setVar, Env.setPriv, setDst, Val.truthy,
+      evalBin, evalUn, boolV, h1, h2, h3, h4]
+  generalize hE : exec fuel Gen.Src.«_cds_wfcq_empty» _ _ = r
+  obtain ⟨vars, rfl⟩ := empty_exec hE hk tk (by simp) (by simp)
+  clear hE
+  rcases inp with _ | ⟨v1, rest⟩
+  · simp [emptySpec, lrun, DeqRes, DeqMid]
+  · obtain ⟨x1, hx1⟩ := hwt v1 (by simp)
+    by_cases hv1 : v1 = .int 0
+    · subst hv1
+      rcases rest with _ | ⟨v2, rest'⟩
+      · simp [emptySpec, lrun, lstep, DeqRes, DeqMid, absEv, decNext, decTail, dec, hq, List.filterMap_cons]
+      · obtain ⟨x2, hx2⟩ := hwt v2 (by simp)
+        by_cases hv2 : v2 = .ptr (.obj hk)
+        · subst hv2
+          simp [emptySpec, lrun, lstep, DeqRes, DeqMid, absEv, decNext, decTail, dec, hq, ht, List.filterMap_cons, emptyRes]
+        · have hx2q : x2 ≠ q := fun e => hv2 (dec_inj L (e ▸ hx2) hdh)
+          simp [emptySpec, hv2]
+          generalize hEo : exec fuel deqMid _ _ = r
+          obtain ⟨o, rfl, himp⟩ := deqMid_run1 L hEo hk tk q b mbv (by simp) (by simp [h2]) sl (by simp [h3]) hs1 hs2
+            (by simp) hs4 (by simp [h4]) hq ht (by simp [hs4.symm, hcfg]) (fun w hw => hwt w (by simp [hw]))
+          simp only []
+          refine ⟨_, rfl, fun hside => ?_⟩
+          obtain ⟨p', hrun, hres⟩ := himp (fun v mo hm => hside v mo (by simp [hm]))
+          rw [hbb] at hrun hres
+          refine ⟨p', ?_, hres⟩
+          have hd0 : dec L (.int 0) = some 0 := by simp [dec]
+          simp [absEv, decNext, decTail, hd0, hq, ht, hx2, List.filterMap_cons, lrun, lstep, hx2q, nonEmptyPc, hrun]
+    · have hx10 : x1 ≠ 0 := fun e => hv1 (dec_eq_zero L (e ▸ hx1))
+      simp [emptySpec, hv1]
+      generalize hEo : exec fuel deqMid _ _ = r
+      obtain ⟨o, rfl, himp⟩ := deqMid_run1 L hEo hk tk q b mbv (by simp) (by simp [h2]) sl (by simp [h3]) hs1 hs2
+        (by simp) hs4 (by simp [h4]) hq ht (by simp [hs4.symm, hcfg]) (fun w hw => hwt w (by simp [hw]))
+      simp only []
+      refine ⟨_, rfl, fun hside => ?_⟩
+      obtain ⟨p', hrun, hres⟩ := himp (fun v mo hm => hside v mo (by simp [hm]))
+      rw [hbb] at hrun hres
+      refine ⟨p', ?_, hres⟩
+      simp [absEv, decNext, decTail, hq, ht, hx1, List.filterMap_cons, lrun, lstep, hx10, nonEmptyPc, hrun]
+/-- **`___cds_wfcq_dequeue_with_state(head, tail, state, blocking)`** from L2's `e1 (.deq blocking) q` (after `callDeq`).
+`state` is NULL or points to a private word that is not `&attempt`, the head's `next` word or the configuration
+pseudo-global.  The run never fails; if no value loaded from `head->node.next` is the head itself (L2 invariant:
+`next` words hold nodes `≥ 3` or NULL; L2's `syncGotPc` tells the two `sync_next` call sites of dequeue apart by
+`a = q`), the events are L2's `ld1 (ld2) sync* d2 [d3 d4 [sync* (d6|d7)] | d6]` and the result is L2's. -/
+theorem dequeue_refines_env (fuel : Nat) (env : Env) (hk tk q : Nat) (b mbv : Int) (inp : List Val) (sv : Val)
+    (h1 : env.vars "u_head" = some (.ptr (.obj hk))) (h2 : env.vars "tail" = some (.ptr (.obj tk)))
+    (h3 : env.vars "state" = some sv) (h4 : env.vars "blocking" = some (.int b))
+    (hsv : sv = .int 0 ∨ ∃ sl, sv = .ptr sl ∧ sl ≠ .glob "&attempt" ∧ sl ≠ .field (.obj hk) "next" ∧
+      sl ≠ .glob "CONFIG_RCU_EMIT_LEGACY_MB")
+    (hq : L.addr hk = some q) (ht : L.tailOf tk = some q)
+    (hcfg : env.priv (.glob "CONFIG_RCU_EMIT_LEGACY_MB") = some (.int mbv))
+    (hwt : ∀ v ∈ inp, Typed L v) :
+    ∃ out, exec fuel Gen.Src.«___cds_wfcq_dequeue_with_state» env inp = .ok out ∧
+      ((∀ v mo, Event.ld (.field (.obj hk) "next") v mo ∈ out.events → v ≠ .ptr (.obj hk)) →
+        ∃ p', lrun (.e1 (.deq (decide (b ≠ 0))) q) (out.events.filterMap (absEv L)) = some p' ∧
+          DeqRes L q (decide (b ≠ 0)) b sv out p') := by
+  rcases hsv with rfl | ⟨sl, rfl, hs1, hs2, hs4⟩
+  · exact dequeue_run0 L fuel env hk tk q b mbv inp h1 h2 h3 h4 hq ht hcfg hwt
+  · exact dequeue_run1 L fuel env hk tk q b mbv inp h1 h2 sl h3 hs1 hs2 hs4 h4 hq ht hcfg hwt
+
+/-! # `___cds_wfcq_splice`
+
+The only oracle value of splice that is *dereferenced* is the old destination tail returned by the `xchg` inside the
+final `___cds_wfcq_append` (all other values are NULL-tested or stored): it must be a non-NULL object pointer (L2
+invariant `tail q ≠ 0`), while the loop legitimately reads NULLs.  The side condition is therefore stated on the run of
+the part of the function *before* that call (`splicePre`, the first 10 statements of the generated body): when it
+completes, the next oracle value is an object pointer. -/
+
+/-- the first `n` statements of a `block` -/
+def initSeq : Nat → Stmt → Stmt
+  | 0, _ => .skip
+  | n+1, .seq a b => .seq a (initSeq n b)
+  | _+1, s => s
+
+/-- what is left after the first `n` statements of a `block` -/
+def dropSeq : Nat → Stmt → Stmt
+  | 0, s => s
+  | n+1, .seq _ b => dropSeq n b
+  | _+1, _ => .skip
+
+/-- `a ; b` on results -/
+def seqRes (ra : Except String Out) (fb : Env → List Val → Except String Out) : Except String Out :=
+  match ra with
+  | .error e => .error e
+  | .ok o =>
+    if o.ctl = .normal then
+      match fb o.env o.inp with
+      | .error e => .error e
+      | .ok o2 => .ok { o2 with events := o.events ++ o2.events }
+    else .ok o
+
+theorem exec_seq_eq (fuel : Nat) (a b : Stmt) (env : Env) (inp : List Val) :
+    exec fuel (.seq a b) env inp = seqRes (exec fuel a env inp) (exec fuel b) := by
+  simp only [exec, seqRes, bind, Except.bind]
+  cases exec fuel a env inp with
+  | error e => rfl
+  | ok o =>
+    cases h : o.ctl <;> simp [h] <;> cases exec fuel b o.env o.inp <;> rfl
+
+theorem seqRes_skip (r : Except String Out) : seqRes r (exec fuel .skip) = r := by
+  cases r with
+  | error e => rfl
+  | ok o =>
+    simp only [seqRes, exec]
+    split
+    · next h => cases o; simp_all
+    · rfl
+
+theorem exec_split (fuel : Nat) (n : Nat) : ∀ (s : Stmt) (env : Env) (inp : List Val),
+    exec fuel s env inp = seqRes (exec fuel (initSeq n s) env inp) (exec fuel (dropSeq n s)) := by
+  induction n with
+  | zero =>
+    intro s env inp
+    simp only [initSeq, dropSeq, exec, seqRes, if_true]
+    cases exec fuel s env inp <;> simp
+  | succ n ih =>
+    intro s env inp
+    cases s with
+    | seq a b =>
+      simp only [initSeq, dropSeq]
+      rw [exec_seq_eq, exec_seq_eq]
+      cases ha : exec fuel a env inp with
+      | error e => rfl
+      | ok o =>
+        by_cases hc : o.ctl = .normal
+        · simp only [seqRes, hc, if_true]
+          rw [ih b o.env o.inp]
+          cases exec fuel (initSeq n b) o.env o.inp with
+          | error e => rfl
+          | ok o2 =>
+            by_cases hc2 : o2.ctl = .normal
+            · simp only [seqRes, hc2, if_true]
+              cases exec fuel (dropSeq n b) o2.env o2.inp <;> simp [List.append_assoc]
+            · simp [seqRes, hc2]
+        · simp [seqRes, hc]
+    | _ => simp only [initSeq, dropSeq, seqRes_skip]
+
+/-- the body of the `for (;;)` of the generated `___cds_wfcq_splice` (extracted, not copied) -/
+def spliceBody : Stmt :=
+  match Gen.Src.«___cds_wfcq_splice» with
+  | .seq _ (.seq _ (.seq _ (.seq _ (.seq _ (.seq _ (.seq (.loop b) _)))))) => b
+  | _ => .skip
+
+/-- the local variables the loop body assigns -/
+def spliceTmp (y : String) : Prop := y = "_t3" ∨ y = "head" ∨ y = "_t4" ∨ y = "_t5"
+
+theorem spliceBody_exec (fuel shk stk : Nat) (b c : Int) (env : Env) (inp : List Val)
+    (h1 : env.vars "src_q_head" = some (.ptr (.obj shk))) (h2 : env.vars "src_q_tail" = some (.ptr (.obj stk)))
+    (h3 : env.vars "blocking" = some (.int b)) (hp : env.priv (.glob "&attempt") = some (.int c)) :
+    ∃ o, exec fuel spliceBody env inp = .ok o ∧ (∀ m, m ≠ .glob "&attempt" → o.env.priv m = env.priv m) ∧
+      (∃ c', o.env.priv (.glob "&attempt") = some (.int c')) ∧ (∀ v ∈ o.inp, v ∈ inp) ∧
+      ((inp = [] ∧ o.events = [] ∧ o.ctl = .blocked) ∨
+       (∃ h, inp.head? = some h ∧ h ≠ .int 0 ∧ o.events = [.xchg (.field (.obj shk) "next") (.int 0) h 5] ∧
+          o.ctl = .brk ∧ o.env.vars "head" = some h ∧ ∀ y, ¬ spliceTmp y → o.env.vars y = env.vars y) ∨
+       (inp = [.int 0] ∧ o.events = [.xchg (.field (.obj shk) "next") (.int 0) (.int 0) 5] ∧ o.ctl = .blocked) ∨
+       (∃ t rest evs, inp = .int 0 :: t :: rest ∧
+          o.events = .xchg (.field (.obj shk) "next") (.int 0) (.int 0) 5 :: .ld (.field (.obj stk) "p") t 1 :: evs ∧
+          evs.filterMap (absEv L) = [] ∧
+          ((t = .ptr (.obj shk) ∧ o.ctl = .ret (some (.int 2))) ∨
+           (t ≠ .ptr (.obj shk) ∧ b = 0 ∧ o.ctl = .ret (some (.int (-1)))) ∨
+           (t ≠ .ptr (.obj shk) ∧ b ≠ 0 ∧ (o.ctl = .blocked ∨
+              (o.ctl = .normal ∧ ∀ y, ¬ spliceTmp y → o.env.vars y = env.vars y)))))) := by
+  rcases inp with _ | ⟨h, rest⟩
+  · exact ⟨⟨[], env, [], .blocked⟩, by simp [spliceBody, Gen.Src.«___cds_wfcq_splice», block, exec, eval, evalArgs,
+      execPrim, asLoc, bind, Except.bind, h1], fun _ _ => rfl, ⟨c, hp⟩, by simp, Or.inl ⟨rfl, rfl, rfl⟩⟩
+  · by_cases hh : h = .int 0
+    · subst hh
+      rcases rest with _ | ⟨t, rest⟩
+      · simp [spliceBody, Gen.Src.«___cds_wfcq_splice», block, exec, eval, evalArgs, execPrim, asLoc, bind, Except.bind,
+          h1, h2, h3, hp, Env.setVar, setDst, Val.truthy]
+      · by_cases ht : t = .ptr (.obj shk)
+        · subst ht
+          simp [spliceBody, Gen.Src.«___cds_wfcq_splice», block, exec, eval, evalArgs, execPrim, asLoc, bind, Except.bind,
+            h1, h2, h3, hp, Env.setVar, setDst, Val.truthy, evalBin, boolV]
+          exact fun v hv => Or.inr (Or.inr hv)
+        · simp only [spliceBody, Gen.Src.«___cds_wfcq_splice», block, exec, eval, evalArgs, execPrim, asLoc, bind,
+            Except.bind, h1, h2, h3, Env.setVar, setDst, evalBin, boolV, Val.truthy, List.length_cons, List.length_nil]
+          simp only [String.reduceEq, if_true, if_false, decide_true, bne_iff_ne, ne_eq, Int.reduceEq, not_false_eq_true,
+            not_true_eq_false, Int.one_ne_zero, h1, h2, h3, ht, bne_self_eq_false, Bool.false_eq_true, decide_false,
+            decide_not, decide_eq_true_eq]
+          generalize hE : exec fuel Gen.Src.«___cds_wfcq_busy_wait» _ _ = r
+          rcases busy_exec L hE (.glob "&attempt") b c (by simp [bindParams]) (by simp [bindParams]) hp with
+            ⟨hb, vars, rfl⟩ | ⟨hb, evs, inp', ctl, c', ⟨vars, rfl⟩, hf, hsub, hctl⟩
+          · simp [hb, hp, ht]
+            exact fun v hv => Or.inr (Or.inr hv)
+          · rcases hctl with rfl | rfl
+            · simp [hb, hp, ht]
+              exact ⟨fun m h h' => absurd h' h, fun v hv => Or.inr (Or.inr (hsub v hv)), by simpa using hf⟩
+            · simp [hb, hp, ht]
+              refine ⟨fun m h h' => absurd h' h, fun v hv => Or.inr (Or.inr (hsub v hv)), by simpa using hf, ?_⟩
+              intro y hy
+              simp [spliceTmp] at hy
+              simp [hy]
+    · have hht : h.truthy = true := by cases h <;> simp_all [Val.truthy]
+      simp [spliceBody, Gen.Src.«___cds_wfcq_splice», block, exec, eval, evalArgs, execPrim, asLoc, bind, Except.bind,
+        h1, h2, h3, hp, Env.setVar, setDst, hht, hh]
+      intro y hy
+      simp [spliceTmp] at hy
+      simp [hy]
+
 end UrcuVerif.Src.Queue.WfcqR
